@@ -20,6 +20,8 @@ import io
 import pickle
 import re
 
+from collections import UserList
+
 from . import core
 from . import env as E
 from . import model as M
@@ -347,12 +349,13 @@ def gen_inputs(r):
             'b': r.choice(['', '62', 'c3a9', 'e9']),
             'n2': r.choice([0, 2, 7]), 'c': r.choice([0, 1, 'c', '']),
             'via': r.choice(['kw', 'mapping', 'client', 'clients',
-                             'dictclient']),
+                             'dictclient', 'dictclient_kw']),
             'zz': r.choice([None, None, 'Z', 'zz2']),
             'cmpf': r.choice(sorted(CMPF)),
             'sk2': r.choice(['a/cmpf', 'a/cmpf/desc', 'n,a/cmpf', 'a']),
             'sk3': r.choice([None, None, '']),
-            'exc': r.choice(sorted(EXCS))}
+            'exc': r.choice(sorted(EXCS)),
+            'seqkind': r.choice(['list', 'list', 'list', 'userlist'])}
 
 
 class Hook:
@@ -382,6 +385,10 @@ def build_inputs(spec, plan, template):
     """fresh, equal copies of one input set -> (client, mapping, kw, hook,
     containers to watch for mutation)"""
     seq = [Rec('r%d' % i, a=a, n=n) for i, (a, n) in enumerate(spec['recs'])]
+    if spec.get('seqkind') == 'userlist':
+        # a list-like caller object that keeps its items in an attribute
+        # (collections.UserList, persistent lists)
+        seq = UserList(seq)
     mseq = [{'a': a, 'n': n} for a, n in spec['recs']]
     hook = Hook(plan, template)
     data = {'seq': seq, 'mseq': mseq,
@@ -399,14 +406,16 @@ def build_inputs(spec, plan, template):
         [o.__dict__ for o in seq]
     via = spec['via']
     if via == 'kw':
-        return None, {}, data, hook, watch
+        return None, None, data, hook, watch      # t(**kw)
     if via == 'mapping':
         return None, data, {}, hook, watch
-    if via == 'dictclient':
+    if via in ('dictclient', 'dictclient_kw'):
         # a plain dict where an object is expected: legal, and it
         # contributes nothing (its keys are not attributes)
-        cd = {'vv': 'from-client-dict', 'dflt': 'cd'}
+        cd = {'vv': 'cd-' + spec['x'], 'dflt': 'cd'}
         watch.append(cd)
+        if via == 'dictclient_kw':
+            return cd, None, data, hook, watch      # no mapping argument
         return cd, data, {}, hook, watch
     client = Rec('client', **data)
     watch.append(client.__dict__)
@@ -414,8 +423,16 @@ def build_inputs(spec, plan, template):
         # a path of client objects: the last one is looked at first
         outer = Rec('outer', x='outer-x', c='outer-c', vv='outer-vv')
         watch.append(outer.__dict__)
-        return (outer, client), {}, {}, hook, watch
-    return client, {}, {}, hook, watch
+        return (outer, client), None, {}, hook, watch
+    return client, None, {}, hook, watch          # t(client)
+
+
+def call(t, client, mapping, kw):
+    """t(client, mapping, **kw); a mapping of None stands for 'no mapping
+    argument given' (the template then uses its own default)"""
+    if mapping is None:
+        return t(client, **kw)
+    return t(client, mapping, **kw)
 
 
 def snapshot(watch):
@@ -522,6 +539,7 @@ def gen_case(seed, tier):
     return {'cls': cls, 'family': family, 'sources': sources,
             'inputs': inputs, 'ops': ops, 'start': 0,
             'encoding': r.choice([None, None, 'utf-8', 'latin-1']),
+            'via_mapping': core.stream(seed, 'c17map').random() < 0.3,
             'defaults': r.choice([{'dflt': 'D'}, {'dflt': 'D', 'c': 1}, {}]),
             'with_sub': r.random() < 0.6}
 
@@ -547,12 +565,16 @@ def construct(case, state, fs):
     cls = getattr(DT, case['cls'])
     d = build_defaults(case, state['defaults'], state['with_sub'])
     ROUTER.cur = fs
+    m = None
+    if case.get('via_mapping'):
+        # the defaults come as the constructor's mapping argument
+        m, d = d, {}
     if case['cls'] in ('HTMLFile', 'File'):
-        t = cls(state.get('fname', FNAME), **d)
+        t = cls(state.get('fname', FNAME), m, **d)
     elif state['encoding']:
-        t = cls(state['src'], encoding=state['encoding'], **d)
+        t = cls(state['src'], m, encoding=state['encoding'], **d)
     else:
-        t = cls(state['src'], **d)
+        t = cls(state['src'], m, **d)
     if state['vars']:
         t.var(**state['vars'])
     return t
@@ -626,7 +648,7 @@ def call_template(case, t, j, i, plan, actual):
         case['inputs'][i], plan, t if actual else None)
     snapw = snapshot(watch)
     try:
-        res = t(client, mapping, **kw)
+        res = call(t, client, mapping, kw)
         out = ['val', M.describe(res)]
     except Exception as e:
         out = norm_exc(e)
